@@ -270,6 +270,7 @@ class SingleLoss:
             if weight_value is not None:
                 self.w[n] = weight_value        # the same concrete weight for every term, in the representation under test
         self.weights = LW(**self.w)
+        self._LW, self._wspec = LW, {n: (wkind if n in wkind_terms else 'scalar', {'dyn_loss': m_res}.get(n, m_u)) for n in names}
         kw['loss_weights'] = self.weights
         if derivative_keys is not None:
             kw['derivative_keys'] = derivative_keys
@@ -328,6 +329,14 @@ class SingleLoss:
             b = E.nonstatio_batch(self.d, brows=brows, border=border, param_batch=pb, obs=obs)
         return freeze(b)
 
+    def replace_weights(self, prefix='v_'):
+        """the constructed loss with its public `loss_weights` field replaced afterwards (what `eqx.tree_at` or
+        `dataclasses.replace`-like surgery does: `__post_init__` does not run again); the specification follows the new weights"""
+        self.w = {n: weight(k, mm, name=prefix + n) for n, (k, mm) in self._wspec.items()}
+        self.weights = self._LW(**self.w)
+        self.loss = self.loss.replace_fields({'loss_weights': self.weights})
+        return self
+
     def evaluate(self, param_keys=(), observed_params=None, params=None):
         p = freeze(params if params is not None else self.params)
         return self.loss.evaluate(p, self.batch(param_keys, observed_params))
@@ -349,6 +358,32 @@ class SingleLoss:
         R = eqf(*pts, self.u, self.params)
         s = weighted_sq_sum(w, R)
         return mean_over(tuple(a for a in s.axes), s)
+
+
+def replaced_weights_twin(make, term_key):
+    """metamorphic obligation 'the weights are read from the public field when the loss is evaluated': the term of a loss
+    whose `loss_weights` were replaced after construction (w_* -> v_*) is the term of the original loss with the weight atoms
+    renamed.  make() builds a fresh SingleLoss"""
+    from .report import Violation
+    from .specs import canon
+    S1 = make()
+    _, t1 = S1.evaluate()
+    S2 = make().replace_weights('v_')
+    _, t2 = S2.evaluate()
+
+    def ren(a):
+        if a[0] == 'K' and isinstance(a[1], str) and a[1].startswith('w_'):
+            return ('K', 'v_' + a[1][2:])
+        return a
+    a1, a2 = to_at(t1[term_key]), to_at(t2[term_key])
+    if a1.axes != () or a2.axes != ():
+        raise Violation(term_key, f"value with axes {a1.axes} / {a2.axes}", "a scalar")
+    exp, found = canon(a1.data[()].map_atoms(ren)), canon(a2.data[()])
+    if not any(a[0] == 'K' and str(a[1]).startswith('w_') for k in a1.data[()].t for a, _ in k):
+        raise Top("the term does not mention its weight")
+    if found != exp:
+        raise Violation(term_key, str(found), str(exp))
+    return f"{term_key} follows the replaced weights"
 
 
 OMITTED = object()
